@@ -404,6 +404,13 @@ func (fx *FnExec) havocAssigns(st *State, envPre *SpecEnv, assigns []*Clause, fn
 			v := fx.c.Fresh("hvp", fx.e.sortOf(loc.ptype))
 			fx.assumeType(st, v, loc.ptype)
 			fx.heapSet(st, hn, Store(fx.heapGet(st, hn, hs), loc.ref, v))
+		case loc.refKind == "map" && loc.ptype != nil:
+			// the contents of the map may change
+			dn, vn, ds, vs := fx.mapHeapNames(loc.ptype.Underlying().(*types.Map))
+			d := fx.heapGet(st, dn, ds)
+			fx.heapSet(st, dn, Store(d, loc.ref, fx.c.Fresh("hvmd", ds.elemSort())))
+			vv := fx.heapGet(st, vn, vs)
+			fx.heapSet(st, vn, Store(vv, loc.ref, fx.c.Fresh("hvmv", vs.elemSort())))
 		case loc.refKind == "elem" && loc.ptype != nil:
 			// the whole backing array of the slice may change
 			hn, hs := fx.elemHeapName(loc.ptype)
@@ -486,6 +493,9 @@ func (fx *FnExec) calleeFrame(st *State, loc *assignLoc, p token.Pos) {
 	case loc.refKind == "pcell":
 		allowed = append(allowed, fx.isFresh(loc.ref))
 		what = "cell"
+	case loc.refKind == "map":
+		allowed = append(allowed, fx.isFresh(loc.ref))
+		what = "map"
 	case loc.refKind == "elem":
 		// a fresh backing array, or none at all (nil slice)
 		allowed = append(allowed, fx.isFresh(loc.ref), Eq(loc.ref, IntLit(0)))
@@ -534,6 +544,10 @@ func (fx *FnExec) calleeFrame(st *State, loc *assignLoc, p token.Pos) {
 			}
 		case loc.refKind == "elem":
 			if al.refKind == "elem" && al.ref != nil {
+				allowed = append(allowed, Eq(al.ref, loc.ref))
+			}
+		case loc.refKind == "map":
+			if al.refKind == "map" && al.ref != nil {
 				allowed = append(allowed, Eq(al.ref, loc.ref))
 			}
 		}
@@ -971,10 +985,19 @@ func (fx *FnExec) mapKey(k *Term, t types.Type) *Term {
 		return k
 	}
 	fn := "key_" + typeID(t)
-	fx.c.DeclareFun(fn, []Sort{k.S}, SInt)
+	if !fx.c.HasDecl(fn) {
+		fx.c.DeclareFun(fn, []Sort{k.S}, SInt)
+		// keys are equal exactly when the key values are equal (Go's == on the key type)
+		a, b := Var("a!k", k.S), Var("b!k", k.S)
+		ka, kb := App(fn, SInt, a), App(fn, SInt, b)
+		fx.c.Axiom("map keys of type "+t.String()+" compare by value", Forall([]*Term{a, b}, Eq(Eq(ka, kb), fx.valEq(a, b, t)), ka, kb))
+	}
 	kt := App(fn, SInt, k)
-	// pairwise: key(a) == key(b) <=> a == b (value equality), instantiated for all key terms seen
+	// pairwise: key(a) == key(b) <=> a == b (value equality), instantiated eagerly for the ground key terms seen
 	ks := kt.String()
+	if strings.Contains(ks, "!q") || strings.Contains(ks, "!k") || strings.Contains(ks, "!c") {
+		return kt
+	}
 	for _, o := range keyTerms[fn] {
 		if o.String() == ks {
 			return kt
@@ -1289,6 +1312,12 @@ func (fx *FnExec) funcMods(fn *ssa.Function, ms *modSet, depth int) {
 				ms.heaps[hn] = hs
 				if ms.full != nil {
 					ms.full[hn] = true
+				}
+			case loc.refKind == "map" && loc.ptype != nil:
+				dn, vn, ds, vs := fx.mapHeapNames(loc.ptype.Underlying().(*types.Map))
+				ms.heaps[dn], ms.heaps[vn] = ds, vs
+				if ms.full != nil {
+					ms.full[dn], ms.full[vn] = true, true
 				}
 			case loc.refKind == "pcell" && loc.ptype != nil:
 				hn, hs := fx.pheapName(loc.ptype)
